@@ -27,7 +27,7 @@ ASSUMPTIONS = [
     "default on an AnyField (the caller's object is handed out like a mutable default argument) and mutable items "
     "nested inside an untyped container default (only the container is copied) are not mutated by the harness",
 ]
-REQUIRED = ["cross-assign+edit", "observer:before", "observer:middle", "observer:after", "inplace:typed", "inplace:untyped", "shared-item-type", "dynamic-add"]
+REQUIRED = ["serialize", "cross-assign+edit", "observer:before", "observer:middle", "observer:after", "inplace:typed", "inplace:untyped", "shared-item-type", "dynamic-add"]
 LEVEL_TEXT = (
     "Generated schemas and histories on one instance with an untouched observer instance and a frozen schema "
     "snapshot as oracle; kills mutants that stop copying default containers, register dynamic fields on the "
@@ -89,6 +89,7 @@ def strategy(tier):
                                                 "what": st.sampled_from(["add", "add", "clear", "replace"])}))
         # only typed scalar-item containers: the library wraps those into its own object; handing one and the same
         # caller-owned object (untyped list, configuration item) to two configurations is caller-made aliasing
+        extra.append(st.fixed_dictionaries({"op": st.just("serialize"), "how": st.sampled_from(["to_tree", "to_tree-virtual", "dumps-json", "dumps-pickle", "asdict", "stub"])}))
         containers = [i for i, (p, nd) in enumerate(leaves) if (nd["kind"] == "list" and nd.get("item") and nd["item"]["kind"] != "any")
                       or (nd["kind"] == "dict" and (nd.get("keyf") or nd.get("valuef")))]  # (a list of AnyField items is stored as the caller's own list)
         if containers:
@@ -228,7 +229,25 @@ def run_case(case, R):
                 _fill_observer(world, b, case)
                 observers.append((b, worlds.snapshot(b, cc)))
             name = op["op"]
-            if name == "cross_assign":
+            if name == "serialize":
+                # rendering A (tree, document, dict, type stub) is a read: it must not leak A's state anywhere
+                try:
+                    how = op["how"]
+                    a = state["cfg"]
+                    if how == "to_tree":
+                        a.to_tree()
+                    elif how == "to_tree-virtual":
+                        a.to_tree(virtual=True)
+                    elif how.startswith("dumps"):
+                        a.dumps(how.split("-")[1])
+                    elif how == "asdict":
+                        cc.asdict(a)
+                    else:
+                        cc.generate_stub(a, class_name="A")
+                    R.label("serialize")
+                except Exception:
+                    pass
+            elif name == "cross_assign":
                 # A takes over the value B holds for one field; later in-place edits of A's value must not reach B
                 if observers:
                     path, node = leaves[op["leaf"] % len(leaves)]
